@@ -6,6 +6,7 @@ Property theorems only (helper lemmas live in Uquic/Proofs/{PN,PNGen,…}.lean).
 -/
 import Uquic.Proofs.PN
 import Uquic.Proofs.PNGen
+import Uquic.Proofs.KeyPhase
 
 namespace Uquic.Props.C05
 open Uquic.Model.PN Uquic.Model.Bytes Uquic.Proofs.PN Uquic.Proofs.PNGen
@@ -123,5 +124,246 @@ theorem be64_injective (pn₁ pn₂ : Nat) (h₁ : pn₁ < 2 ^ 62) (h₂ : pn₂
   beBytes_inj 8 pn₁ pn₂ (by omega) (by omega) h
 
 example : nonce [0,1,2,3,4,5,6,7,8,9,10,11] 258 = [0,1,2,3,4,5,6,7,8,9,11,9] := by decide
+
+/-! ## 4. key updates (model: Uquic/Model/Crypto/KeyPhase.lean, histories: Uquic/Spec/KeyPhaseRun.lean) -/
+
+section KeyUpdate
+open Uquic.Model.KeyPhase Uquic.Spec.KeyPhaseRun Uquic.Proofs.KeyPhase
+
+/-- `key_update_local`: in EVERY state, `KeyPhase()` moves to the next generation (by exactly one) only if
+    the handshake is confirmed and either this is the first update or a packet sent with the current keys
+    has been acknowledged (`updateAllowed`, RFC 9001 §6.1), and only when a packet-count interval was hit. -/
+theorem key_update_local (a : KA) (e : Env) (h : (a.keyPhaseBit e).1.keyPhase ≠ a.keyPhase) :
+    (a.keyPhaseBit e).1.keyPhase = a.keyPhase + 1 ∧
+    a.handshakeConfirmed = true ∧
+    (a.keyPhase = 0 ∨ (a.firstSentWithCurrentKey ≠ Uquic.Model.KeyPhase.invalidPN ∧ a.largestAcked ≠ Uquic.Model.KeyPhase.invalidPN ∧
+        a.largestAcked ≥ a.firstSentWithCurrentKey)) ∧
+    (a.numRcvdWithCurrentKey ≥ min e.keyUpdateInterval e.firstKeyUpdateInterval ∨
+      a.numSentWithCurrentKey ≥ min e.keyUpdateInterval e.firstKeyUpdateInterval) := by
+  rw [keyPhaseBit_phase] at h ⊢
+  by_cases hs : a.shouldInitiateKeyUpdate e = true
+  · have ha := (updateAllowed_iff a).1 (shouldInitiate_allowed a e hs)
+    refine ⟨by simp [hs], ha.1, ha.2, ?_⟩
+    unfold KA.shouldInitiateKeyUpdate at hs
+    simp only [Bool.and_eq_true, Bool.or_eq_true, decide_eq_true_eq] at hs
+    omega
+  · simp [hs] at h
+
+/-- `key_update_local_needs_peer` (reachable states, ALL histories under the caller contract — sealed packet
+    numbers increase, ACKs only for sent packets): a second or later locally initiated update happens only
+    after a packet protected with the CURRENT generation was received, i.e. the peer holds the current keys
+    (RFC 9001 §6.1/§6.2: never more than one update ahead of the peer). -/
+theorem key_update_local_needs_peer (e : Env) (ops : List Op) (hc : contract (-1) ops)
+    (h : ((run e ops).a.keyPhaseBit e).1.keyPhase ≠ (run e ops).a.keyPhase) (hp : (run e ops).a.keyPhase ≠ 0) :
+    (run e ops).a.numRcvdWithCurrentKey > 0 := by
+  have inv := run_inv e ops {} inv_init hc
+  obtain ⟨_, _, hcond, _⟩ := key_update_local _ e h
+  rcases hcond with h0 | ⟨h1, _, h3⟩
+  · exact absurd h0 hp
+  · exact inv.ackConfirmed (by rwa [invalidPN_eq] at h1) h3
+
+/-- `key_ack_discipline`: `SetLargestAcked` answers KEY_UPDATE_ERROR exactly when the ACK covers a packet of
+    the current phase although nothing protected with the current keys has been received -/
+theorem key_ack_discipline (a : KA) (pn : Int) :
+    (a.setLargestAcked pn).2 = false ↔
+      (a.firstSentWithCurrentKey ≠ Uquic.Model.KeyPhase.invalidPN ∧ pn ≥ a.firstSentWithCurrentKey ∧ a.numRcvdWithCurrentKey = 0) := by
+  unfold KA.setLargestAcked; split <;> simp_all
+
+/-- `key_update_remote`: `Open` moves to the next generation (by exactly one) iff it succeeded with the NEXT
+    key; then the packet is authentic, sealed with generation `keyPhase+1`, carries the other key-phase bit,
+    is not older than the first packet received with the current key, and we have already sent with the
+    current keys (or are in phase 0). -/
+theorem key_update_remote (a : KA) (e : Env) (t pn kp : Int) (p : Pkt)
+    (h : (a.open e t pn kp p).1.keyPhase ≠ a.keyPhase) :
+    (a.open e t pn kp p).1.keyPhase = a.keyPhase + 1 ∧ (a.open e t pn kp p).2 = .ok ∧
+    p.authentic = true ∧ p.gen = a.keyPhase + 1 ∧ kp ≠ bit a.keyPhase ∧
+    (a.dropExpired t).isOld pn = false ∧ ¬ (a.keyPhase > 0 ∧ a.firstSentWithCurrentKey = Uquic.Model.KeyPhase.invalidPN) := by
+  obtain ⟨hu, hok, hph⟩ := openU_fst a e t pn kp p
+  have hopen : (a.open e t pn kp p) = ((a.openU e t pn kp p).1, (a.openU e t pn kp p).2.1) := by simp [KA.open]
+  obtain ⟨d1, d2, _⟩ := dropExpired_fields a t
+  rw [hopen] at h ⊢
+  simp only at h ⊢
+  rw [hph, openApply_phase, d1] at h ⊢
+  by_cases hd : (a.dropExpired t).openDecide pn kp p = (.ok, .next)
+  · have := openDecide_ok _ pn kp p .next hd
+    rw [d1] at this
+    refine ⟨by simp [hd], hok.2 (by rw [hd]), this.1, ?_⟩
+    rcases this.2 with ⟨hx, _⟩ | ⟨hx, _⟩ | ⟨_, h2, h3, h4, h5⟩
+    · cases hx
+    · cases hx
+    · refine ⟨h2, h3, h4, ?_⟩
+      simp only [KA.remoteUpdateTooQuick, d1, d2, Bool.and_eq_false_iff, decide_eq_false_iff_not] at h5
+      intro hc
+      rcases h5 with h5 | h5
+      · exact h5 hc.1
+      · exact h5 hc.2
+  · simp [hd] at h
+
+/-- `key_update_too_quick`: an authentic next-generation packet that arrives before we have sent anything in
+    the current (non-zero) phase is answered with KEY_UPDATE_ERROR and no state change of the key phase;
+    and `Open` reports KEY_UPDATE_ERROR for no other reason. -/
+theorem key_update_too_quick (a : KA) (e : Env) (t pn kp : Int) (p : Pkt) :
+    (a.open e t pn kp p).2 = .keyUpdateError ↔
+      (kp ≠ bit a.keyPhase ∧ (a.dropExpired t).isOld pn = false ∧ p.authentic = true ∧ p.gen = a.keyPhase + 1 ∧
+        a.keyPhase > 0 ∧ a.firstSentWithCurrentKey = Uquic.Model.KeyPhase.invalidPN) := by
+  obtain ⟨d1, d2, _⟩ := dropExpired_fields a t
+  have hopen : (a.open e t pn kp p).2 = (a.openU e t pn kp p).2.1 := by simp [KA.open]
+  rw [hopen]
+  unfold KA.openU KA.openInner
+  simp only
+  constructor
+  · intro h
+    generalize hd : (a.dropExpired t).openDecide pn kp p = d at h
+    obtain ⟨r, u⟩ := d
+    cases r <;> simp at h
+    · split at h <;> simp at h
+    · have := openDecide_keyUpdateError _ pn kp p u hd
+      rw [d1, d2] at this
+      refine ⟨?_, ?_, this.1, this.2.1, this.2.2.1, this.2.2.2⟩
+      all_goals
+        unfold KA.openDecide at hd
+        repeat' split at hd
+        all_goals simp_all
+  · rintro ⟨h1, h2, h3, h4, h5, h6⟩
+    have := openDecide_next (a.dropExpired t) pn kp p h3 (by rw [d1]; exact h4) (by rw [d1]; exact h1) h2
+    have hq : (a.dropExpired t).remoteUpdateTooQuick = true := by
+      simp [KA.remoteUpdateTooQuick, d1, d2, h5, h6]
+    rw [hq] at this
+    simp [this]
+
+/-- `key_open_sound`: whenever `Open` succeeds, the packet is authentic (sealed by the peer, nothing
+    modified, right packet number) and was opened with the key of exactly the generation it was sealed with:
+    current (same bit), previous (other bit, inside the reordering window, key still held) or next (other
+    bit, accepted as a key update). Hence tampering and foreign generations are always rejected. -/
+theorem key_open_sound (a : KA) (e : Env) (t pn kp : Int) (p : Pkt) (h : (a.open e t pn kp p).2 = .ok) :
+    p.authentic = true ∧
+    ((p.gen = a.keyPhase ∧ kp = bit a.keyPhase) ∨
+     (p.gen = a.keyPhase - 1 ∧ kp ≠ bit a.keyPhase ∧ (a.dropExpired t).isOld pn = true ∧ (a.dropExpired t).prevPresent = true) ∨
+     (p.gen = a.keyPhase + 1 ∧ kp ≠ bit a.keyPhase ∧ (a.dropExpired t).isOld pn = false)) := by
+  obtain ⟨hu, hok, _⟩ := openU_fst a e t pn kp p
+  have hopen : (a.open e t pn kp p).2 = (a.openU e t pn kp p).2.1 := by simp [KA.open]
+  rw [hopen] at h
+  have h' := hok.1 h
+  obtain ⟨d1, _⟩ := dropExpired_fields a t
+  have := openDecide_ok (a.dropExpired t) pn kp p ((a.dropExpired t).openDecide pn kp p).2 (by rw [← h'])
+  rw [d1] at this
+  refine ⟨this.1, ?_⟩
+  rcases this.2 with ⟨_, h1, h2⟩ | ⟨_, h1, h2, h3, h4⟩ | ⟨_, h1, h2, h3, _⟩
+  · exact Or.inl ⟨h1, h2⟩
+  · exact Or.inr (Or.inl ⟨h1, h2, h3, h4⟩)
+  · exact Or.inr (Or.inr ⟨h1, h2, h3⟩)
+
+/-- `tamper_rejected_keyphase`: nothing unauthentic and nothing of a generation other than
+    `keyPhase-1, keyPhase, keyPhase+1` is ever opened, in any state -/
+theorem key_open_rejects (a : KA) (e : Env) (t pn kp : Int) (p : Pkt)
+    (h : p.authentic = false ∨ (p.gen ≠ a.keyPhase ∧ p.gen ≠ a.keyPhase - 1 ∧ p.gen ≠ a.keyPhase + 1)) :
+    (a.open e t pn kp p).2 ≠ .ok := by
+  intro hc
+  have := key_open_sound a e t pn kp p hc
+  rcases h with h | ⟨h1, h2, h3⟩
+  · simp [h] at this
+  · rcases this.2 with ⟨hh, _⟩ | ⟨hh, _⟩ | ⟨hh, _⟩ <;> contradiction
+
+/-- `key_open_complete`: what the peer protects DOES open —
+    (cur) an authentic packet of the current generation with the current bit, in every state;
+    (next) one of the next generation, not older than the first packet received with the current key, once we
+           have sent in the current phase (or in phase 0): it is accepted and the generation advances;
+    (prev) one of the previous generation inside the reordering window (`pn < firstRcvdWithCurrentKey`, or
+           nothing received with the current key yet) while the previous key is held, i.e. until the 3·PTO
+           timer armed at the first packet of the current generation has expired. -/
+theorem key_open_complete (a : KA) (e : Env) (t pn kp : Int) (p : Pkt) (ha : p.authentic = true) :
+    (p.gen = a.keyPhase → kp = bit a.keyPhase → (a.open e t pn kp p).2 = .ok) ∧
+    (p.gen = a.keyPhase + 1 → kp ≠ bit a.keyPhase → (a.dropExpired t).isOld pn = false →
+       ¬ (a.keyPhase > 0 ∧ a.firstSentWithCurrentKey = Uquic.Model.KeyPhase.invalidPN) →
+       (a.open e t pn kp p).2 = .ok ∧ (a.open e t pn kp p).1.keyPhase = a.keyPhase + 1) ∧
+    (p.gen = a.keyPhase - 1 → kp ≠ bit a.keyPhase → (a.dropExpired t).isOld pn = true →
+       a.prevPresent = true → (a.prevRcvAEADExpiry = 0 ∨ t ≤ a.prevRcvAEADExpiry) →
+       (a.open e t pn kp p).2 = .ok) := by
+  obtain ⟨hu, hok, hph⟩ := openU_fst a e t pn kp p
+  obtain ⟨d1, d2, _⟩ := dropExpired_fields a t
+  have hopen : (a.open e t pn kp p) = ((a.openU e t pn kp p).1, (a.openU e t pn kp p).2.1) := by simp [KA.open]
+  rw [hopen]
+  simp only
+  refine ⟨?_, ?_, ?_⟩
+  · intro hg hk
+    apply hok.2
+    rw [openDecide_cur _ pn kp p ha (by rw [d1]; exact hg) (by rw [d1]; exact hk)]
+  · intro hg hk hold hq
+    have hq' : (a.dropExpired t).remoteUpdateTooQuick = false := by
+      simp only [KA.remoteUpdateTooQuick, d1, d2, Bool.and_eq_false_iff, decide_eq_false_iff_not]
+      by_cases h0 : a.keyPhase > 0
+      · right; exact fun hh => hq ⟨h0, hh⟩
+      · left; exact h0
+    have hd := openDecide_next _ pn kp p ha (by rw [d1]; exact hg) (by rw [d1]; exact hk) hold
+    rw [hq'] at hd
+    simp only [Bool.false_eq_true, if_false] at hd
+    refine ⟨hok.2 (by rw [hd]), ?_⟩
+    rw [hph, openApply_phase, hd, d1]; simp
+  · intro hg hk hold hp hexp
+    have hd := openDecide_prev _ pn kp p ha (by rw [d1]; exact hg) (by rw [d1]; exact hk) hold
+    have hpp : (a.dropExpired t).prevPresent = true := by
+      rw [dropExpired_prev, hp]
+      rcases hexp with h0 | h1
+      · simp [h0]
+      · simp; omega
+    rw [hpp] at hd
+    apply hok.2
+    rw [hd]; rfl
+
+/-- `key_prev_dropped`: once the timer armed for the previous key has expired, packets of the previous
+    generation get ErrKeysDropped (and the key is gone for good) -/
+theorem key_prev_dropped (a : KA) (e : Env) (t pn kp : Int) (p : Pkt)
+    (hk : kp ≠ bit a.keyPhase) (hold : (a.dropExpired t).isOld pn = true)
+    (hexp : a.prevRcvAEADExpiry ≠ 0 ∧ t > a.prevRcvAEADExpiry) :
+    (a.open e t pn kp p).2 = .keysDropped ∧ (a.open e t pn kp p).1.prevPresent = false := by
+  obtain ⟨d1, _⟩ := dropExpired_fields a t
+  have hpp : (a.dropExpired t).prevPresent = false := by
+    rw [dropExpired_prev]; simp [hexp.1, hexp.2]
+  have hd : (a.dropExpired t).openDecide pn kp p = (.keysDropped, .none) := by
+    unfold KA.openDecide; simp [d1, hk, hold, hpp]
+  simp [KA.open, KA.openU, KA.openInner, hd, KA.openApply, hpp]
+
+/-- `key_aead_limit`: failed decryptions are counted; the failure that reaches the cipher suite's limit —
+    and every one after it — is reported as AEAD_LIMIT_REACHED instead (RFC 9001 §6.6) -/
+theorem key_aead_limit (a : KA) (e : Env) (t pn kp : Int) (p : Pkt) :
+    ((a.open e t pn kp p).2 = .decryptionFailed → (a.open e t pn kp p).1.invalidPacketCount < e.invalidPacketLimit) ∧
+    ((a.open e t pn kp p).2 = .aeadLimitReached → (a.open e t pn kp p).1.invalidPacketCount ≥ e.invalidPacketLimit) ∧
+    a.invalidPacketCount ≤ (a.open e t pn kp p).1.invalidPacketCount := by
+  have := openU_limit a e t pn kp p
+  simpa [KA.open] using this
+
+/-- the key phase changes ONLY through `KeyPhase()` or a successful `Open`: sealing, ACKs and the
+    confirmation never move it -/
+theorem key_phase_stable (a : KA) (pn : Int) :
+    (a.seal pn).1.keyPhase = a.keyPhase ∧ (a.setLargestAcked pn).1.keyPhase = a.keyPhase ∧
+    a.setHandshakeConfirmed.keyPhase = a.keyPhase ∧ (a.seal pn).2 = a.keyPhase := by
+  refine ⟨?_, ?_, rfl, ?_⟩
+  · unfold KA.seal; simp only; (repeat' split) <;> rfl
+  · unfold KA.setLargestAcked; split <;> rfl
+  · unfold KA.seal; simp only; (repeat' split) <;> rfl
+
+/-- `key_update_discipline` (summary used by the manifest): local updates only when allowed, remote updates
+    only when allowed and authentic, each by exactly one generation. -/
+theorem key_update_discipline (a : KA) (e : Env) :
+    ((a.keyPhaseBit e).1.keyPhase ≠ a.keyPhase →
+       (a.keyPhaseBit e).1.keyPhase = a.keyPhase + 1 ∧ a.updateAllowed = true) ∧
+    (∀ t pn kp p, (a.open e t pn kp p).1.keyPhase ≠ a.keyPhase →
+       (a.open e t pn kp p).1.keyPhase = a.keyPhase + 1 ∧ p.authentic = true ∧ p.gen = a.keyPhase + 1 ∧
+       ¬ (a.keyPhase > 0 ∧ a.firstSentWithCurrentKey = Uquic.Model.KeyPhase.invalidPN)) := by
+  refine ⟨fun h => ?_, fun t pn kp p h => ?_⟩
+  · obtain ⟨h1, h2, h3, _⟩ := key_update_local a e h
+    exact ⟨h1, (updateAllowed_iff a).2 ⟨h2, h3⟩⟩
+  · obtain ⟨h1, _, h3, h4, _, _, h7⟩ := key_update_remote a e t pn kp p h
+    exact ⟨h1, h3, h4, h7⟩
+
+-- the hypotheses are satisfiable by a non-trivial reachable state: two updates, the second one after the
+-- peer answered in phase 1 and acknowledged a phase-1 packet
+def exEnv : Env := { pto3 := 90, keyUpdateInterval := 2, firstKeyUpdateInterval := 1, invalidPacketLimit := 10 }
+def exOps : List Op := [.confirm, .seal 0, .seal 1, .open 5 0 1 ⟨1, true⟩, .ack 1, .seal 2]
+example : contract (-1) exOps := by simp [exOps, contract]
+example : (run exEnv exOps).a.keyPhase = 1 ∧ (run exEnv exOps).a.numRcvdWithCurrentKey = 1 ∧
+    (run exEnv (exOps ++ [.seal 3])).a.keyPhase = 2 := by decide
+
+end KeyUpdate
 
 end Uquic.Props.C05
